@@ -24,9 +24,11 @@ func fileOpts(tier string, minBatches int, long bool) core.HistOpts {
 		o.Profile.MaxStr = 300
 		o.PageMax = 50
 	}
+	o.ManyPct, o.ManyMax = 1, 40
 	if tier == "thorough" {
 		o.MaxOps = 48
 		o.MaxBatches = 4
+		o.ManyMax = 120
 	}
 	return o
 }
